@@ -68,7 +68,7 @@ contract('System.__init__', props=['C20'], invariants='prove_only', args={'resou
                   'starts_empty_and_uninitialised': 'len(self._assets) == 0 and not self._simulation_is_initialized',
                   'own_environment': 'fresh(self._env) and self._env._now == 0'})
 
-contract('System.add_asset', props=['C20'], kind='static', args={'new_asset': 'ref:Asset'},
+contract('System.add_asset', props=['C20', 'C14'], kind='static', args={'new_asset': 'ref:Asset'},
          requires={'active_system_wellformed':
                        'System._instance is None or (alive(System._instance) and System._instance._assets is not None and '
                        'alive(System._instance._assets) and System._instance._env is not None)',
@@ -90,7 +90,7 @@ contract('System.add_asset', props=['C20'], kind='static', args={'new_asset': 'r
                  '        trace_ref(old(trace_len()), 0) is System._instance._env)',
          })
 
-contract('System._initialize_assets', props=['C20'], args={}, modular=True,
+contract('System._initialize_assets', props=['C20', 'C14'], args={}, modular=True,
          ensures={'each_registered_asset_initialised_once_in_order':
                       'trace_len() == old(trace_len()) + len(self._assets) and '
                       'all(trace_kind(old(trace_len()) + j) == fn_id("initialize") and '
